@@ -369,6 +369,13 @@ struct Transport::Impl
             {
               return; // M-3: don't grow a buffer no one will drain
             }
+            if (bufIt->second->overflow)
+            {
+              // Overflow is TERMINAL for the buffer (bytes were already dropped).
+              // Appending a later, smaller arrival would hand the reader bytes
+              // that follow a gap before it ever sees BufferOverflow.
+              return;
+            }
             if (bufIt->second->data.size() + data.size() > config.maxSyncReceiveBuffer)
             {
               // Overflow: surface a distinct error to the parked waiter instead
